@@ -14,7 +14,8 @@ import sys
 from mpmath import mp, mpf, sqrt, floor, binomial, power, exp
 mp.dps = 50
 
-CASES = [(40, 0.5), (1000, 0.5), (400, 0.25), (100, 0.75), (4096, 0.125), (64, 0.375)]
+# the last three: frac(n p) >= 1 - p, so that the mode floor(n p + p) differs from floor(n p)
+CASES = [(40, 0.5), (1000, 0.5), (400, 0.25), (100, 0.75), (4096, 0.125), (64, 0.375), (27, 0.4375), (251, 0.46875), (1003, 0.25)]
 
 
 def l14(v):
